@@ -298,6 +298,12 @@ impl<I: Iterator> Iterator for Chunked<I> {
         }
         x
     }
+
+    /// exact whenever the source's is (real adapters often hand out `Vec::into_iter`, and engine code may look at it)
+    fn size_hint(&self) -> (usize, Option<usize>) {
+        let (lo, hi) = if self.source_exhausted { (0, Some(0)) } else { self.iter.size_hint() };
+        (lo.saturating_add(self.buffer.len()), hi.and_then(|h| h.checked_add(self.buffer.len())))
+    }
 }
 
 /// Per resolver call: (input plan, output plan, per-neighbour-iterator plan)
